@@ -8,7 +8,7 @@
     constants from Gen.Consts) on the same script predicts the same outcome for every thread
     at the same time, within the tolerance.  Because the implementation's poll instants
     are only known up to scheduling jitter, the script is also simulated with the external
-    events shifted by -J and +J; any of the three predictions may match.
+    events shifted by -J and +J and with latencies added to the sleeps (see [variant]).
 
     [spec_ok]: the property's clauses evaluated on the implementation's observation
     alone: hold intervals of live holders are disjoint; after a holder is killed a
@@ -21,7 +21,8 @@ Open Scope Z_scope.
 Definition sim_delta : Z := 2000000000.
 Definition cfg_repo_eps (d e : Z) : config :=
   Config lock_freshness_interval file_lock_poll_interval lock_stale_factor (Z.to_nat lock_empty_retries)
-         lock_empty_sleep lock_empty_count_resets (lock_hb_checks_created && lock_hb_check_before_truncate) d e.
+         lock_empty_sleep lock_empty_count_resets (lock_hb_checks_created && lock_hb_check_before_truncate)
+         (lock_empty_mtime_guard && (lock_empty_mtime_factor =? lock_stale_factor)) lock_undecodable_as_empty d e.
 Definition cfg_repo (d : Z) : config := cfg_repo_eps d 0.
 
 Record ev := Ev { etime : Z; ekind : Z; ea : Z; eb : Z }.   (* kind: 0 start(tid, pid) 1 unlock(tid) 2 kill(pid) 3 cancel(tid) 4 stop(pid) 5 cont(pid) *)
@@ -29,27 +30,30 @@ Record ob := Ob { otid : Z; oout : Z; otime : Z }.          (* out: 0 acquired 1
 
 Record case := Case {
   cinit : option fcontent;
+  cmtime : Z;          (* modification time of the pre-made lock file (relative, <= 0) *)
   cevents : list ev;
   chorizon : Z;
   ctol : Z;
   cjit : Z;
   cgap : Z;            (* injected truncate -> write delay of the heartbeats (slow storage), else 0 *)
+  cslow : list (nat * Z); (* processes whose unlink calls are delayed (injected), with the delay *)
   cobs : list ob
 }.
 
 Definition get_optz : dec (option Z) := get_opt get_z.
-Definition get_init : dec (option fcontent) :=
+Definition get_init : dec (option fcontent * Z) :=
   tag <- get_z ;;
-  if tag =? 0 then ret None
-  else if tag =? 1 then ret (Some FEmpty)
-  else if tag =? 2 then ret (Some FGarbage)
-  else (c <- get_optz ;; u <- get_optz ;; ret (Some (FMeta c u))).
+  if tag =? 0 then ret (None, 0)
+  else if tag =? 1 then (m <- get_z ;; ret (Some FEmpty, m))
+  else if tag =? 2 then (m <- get_z ;; ret (Some FGarbage, m))
+  else (c <- get_optz ;; u <- get_optz ;; m <- get_z ;; ret (Some (FMeta c u), m)).
 Definition get_ev : dec ev := t <- get_z ;; k <- get_z ;; a <- get_z ;; b <- get_z ;; ret (Ev t k a b).
 Definition get_ob : dec ob := t <- get_z ;; o <- get_z ;; x <- get_z ;; ret (Ob t o x).
 Definition get_case : dec case :=
   i <- get_init ;; es <- get_list get_ev ;; h <- get_z ;; tol <- get_z ;; j <- get_z ;; g <- get_z ;;
+  sl <- get_list (p <- get_nat ;; d <- get_z ;; ret (p, d)) ;;
   os <- get_list get_ob ;;
-  ret (Case i es h tol j g os).
+  ret (Case (fst i) (snd i) es h tol j g sl os).
 
 Definition sevent_of (e : ev) : sevent :=
   let a := Z.to_nat (ea e) in
@@ -69,9 +73,26 @@ Definition no_bound : Z := 1000000000000000.
 Definition script_of (j : Z) (es : list ev) : list (Z * sevent) :=
   map (fun e => ((if (ekind e =? 1) || (ekind e =? 2) then Z.max 0 (etime e + j) else etime e), sevent_of e)) es.
 
-Definition model_outlog (c : case) (j : Z) : list (tid * Z * Z) :=
-  outlog (simulate (cfg_repo_eps (if suspends (cevents c) then no_bound else sim_delta) (cgap c)) 4000 (chorizon c)
-                   (Sim (init_state (cinit c) (-1)) (script_of j (cevents c)) [] [] [] [])).
+(** *** scheduling jitter
+
+    The implementation's poll instants are known only up to scheduling latency: every sleep
+    of a Lock call lasts the nominal time plus whatever the machine adds (tens of ms when
+    idle, hundreds under load or under strace).  A [variant] fixes such latencies for the
+    simulation: a shift [vj] of the unlock / kill events, a latency [vlat0] added to every
+    sleep, and extra latencies for single threads.  The comparison first looks for ONE
+    variant without latency that explains the whole observation; failing that, every
+    thread's observation must be explained by SOME variant of a grid up to 600 ms (threads
+    independently: the envelope of the admissible jitter).  What the model must get right
+    in every variant: who ends how, and when up to a poll period. *)
+Record variant := Variant { vj : Z; vlat0 : Z; vlats : list (tid * Z) }.
+
+Definition sim_cfg (c : case) : config :=
+  cfg_repo_eps (if suspends (cevents c) then no_bound else sim_delta) (cgap c).
+Definition sim_run (c : case) (v : variant) : sim :=
+  simulate (sim_cfg c) 4000 (chorizon c)
+           (Sim (init_state (cinit c) (-1) (cmtime c)) (script_of (vj v) (cevents c)) [] [] [] [] (cslow c) [] (vlat0 v) (vlats v)).
+Definition model_outlog_v (c : case) (v : variant) : list (tid * Z * Z) := outlog (sim_run c v).
+Definition model_outlog (c : case) (j : Z) : list (tid * Z * Z) := model_outlog_v c (Variant j 0 []).
 
 Definition find_out (lg : list (tid * Z * Z)) (t : Z) : option (Z * Z) :=
   match find (fun x => Z.of_nat (fst (fst x)) =? t) lg with
@@ -85,15 +106,37 @@ Definition ob_agrees (tol : Z) (lg : list (tid * Z * Z)) (o : ob) : bool :=
   | None => oout o =? -1
   end.
 
-Definition agrees_with (c : case) (j : Z) : bool := forallb (ob_agrees (ctol c) (model_outlog c j)) (cobs c).
+(** [exists_lazy] stops at the first hit also under vm_compute *)
+Fixpoint exists_lazy {A} (f : A -> bool) (l : list A) : bool :=
+  match l with
+  | [] => false
+  | x :: r => if f x then true else exists_lazy f r
+  end.
+
+Definition ms : Z := 1000000.
+Definition uniform_lats : list Z := map (fun x => x * ms) [20; 40; 60; 80; 100; 130; 160; 200; 250; 300; 350; 400; 450; 500; 550; 600].
+Definition single_lats : list Z := map (fun x => x * ms) [120; 300; 550].
+Definition case_tids (c : case) : list tid :=
+  map (fun e => Z.to_nat (ea e)) (filter (fun e => ekind e =? 0) (cevents c)).
+Definition base_variants (c : case) : list variant :=
+  [Variant 0 0 []; Variant (- cjit c) 0 []; Variant (cjit c) 0 []].
+Definition all_variants (c : case) : list variant :=
+  flat_map (fun j =>
+              Variant j 0 [] ::
+              map (fun l => Variant j l []) uniform_lats ++
+              flat_map (fun t => map (fun l => Variant j 0 [(t, l)]) single_lats) (case_tids c))
+           [0; - cjit c; cjit c].
+
+Definition agrees_with (c : case) (v : variant) : bool := forallb (ob_agrees (ctol c) (model_outlog_v c v)) (cobs c).
 Definition model_agrees (c : case) : bool :=
-  agrees_with c 0 || agrees_with c (- cjit c) || agrees_with c (cjit c).
+  if exists_lazy (agrees_with c) (base_variants c) then true
+  else forallb (fun o => exists_lazy (fun v => ob_agrees (ctol c) (model_outlog_v c v) o) (all_variants c)) (cobs c).
 
 (** ** the monitors *)
 Definition slack : Z := 1500000000.
 Definition recovery_bound : Z :=
   lock_stale_factor * lock_freshness_interval + file_lock_poll_interval + lock_empty_retries * lock_empty_sleep + slack.
-Definition cancel_bound : Z := 500000000.
+Definition cancel_bound : Z := 900000000.
 Definition clock_slack : Z := 5000000.
 
 Definition first_time (es : list ev) (k a : Z) : option Z :=
@@ -127,16 +170,54 @@ Definition persistent_waiter (c : case) (from to : Z) (o : ob) : bool :=
   | None => false
   end.
 
+Definition not_killed (c : case) (o : ob) : bool :=
+  match first_time (cevents c) 2 (pid_of (cevents c) (otid o)) with Some _ => false | None => true end.
+
+(** after time [from] the lock is obtainable for good (its holder is dead and the file stale,
+    at the latest, at [from] + ...): some thread acquires by [to], or else no contender that
+    was there gave up with an error of its own or is still waiting at [to] *)
+Definition recovered_by (c : case) (from to : Z) : bool :=
+  existsb (fun o => (oout o =? 0) && (from <? otime o) && (otime o <=? to)) (cobs c) ||
+  negb (existsb (fun o =>
+          match first_time (cevents c) 0 (otid o) with
+          | Some st =>
+              (st <=? from + 2000000000) && not_killed c o &&
+              ((((oout o =? 2) || (oout o =? 3)) && (from <=? otime o)) ||
+               (persistent_waiter c from to o && (to <? chorizon c)))
+          | None => false
+          end) (cobs c)).
+
 Definition recovers_ok (c : case) : bool :=
   forallb (fun e =>
     if ekind e =? 2 then
       let tk := etime e in
       (* was a thread of the killed process holding at the kill? *)
       let held := existsb (fun h => let '(t, a, e1) := h in (pid_of (cevents c) t =? ea e) && (a <=? tk) && (tk <=? e1)) (holds_of c) in
-      let waiting := existsb (persistent_waiter c tk (tk + recovery_bound)) (cobs c) in
-      negb (held && waiting && (tk + recovery_bound <? chorizon c)) ||
-      existsb (fun o => (oout o =? 0) && (tk <? otime o) && (otime o <=? tk + recovery_bound)) (cobs c)
+      negb held || recovered_by c tk (tk + recovery_bound)
     else true) (cevents c).
+
+(** a pre-made lock file has no live owner (its holder is dead): it becomes obtainable once it
+    is stale - by its timestamps (Updated, else Created; none: at once), or, for an empty or
+    undecodable file, by its modification time - and then a persistent waiter must acquire
+    within a poll interval, the empty-read retries and the slack.  A waiter that returns an
+    error, or is still waiting then, fails the clause. *)
+Definition stale_span : Z := lock_stale_factor * lock_freshness_interval.
+Definition pre_free_at (c : case) : option Z :=
+  match cinit c with
+  | None => None
+  | Some (FMeta cr u) =>
+      Some (match (match u with Some x => Some x | None => cr end) with
+            | Some r => Z.max 0 (r + stale_span)
+            | None => 0
+            end)
+  | Some _ => Some (Z.max 0 (cmtime c + stale_span))
+  end.
+Definition pre_bound : Z := file_lock_poll_interval + lock_empty_retries * lock_empty_sleep + slack.
+Definition prefile_recovers_ok (c : case) : bool :=
+  match pre_free_at c with
+  | None => true
+  | Some tf => recovered_by c (tf - 1) (tf + pre_bound)
+  end.
 
 Definition cancel_ok (c : case) : bool :=
   forallb (fun e =>
@@ -156,7 +237,7 @@ Definition cancel_ok (c : case) : bool :=
     kills or suspensions, a thread all of whose contenders either finished (Lock failed, or Unlock called)
     at least [free_margin] before it called Lock, or call Lock only [free_prompt] after it,
     acquires within [free_prompt] (well below the poll interval) *)
-Definition free_prompt : Z := 800000000.
+Definition free_prompt : Z := 900000000.
 Definition free_margin : Z := 100000000.
 Definition finished_before (c : case) (o' : ob) (t : Z) : bool :=
   if oout o' =? 0 then match first_time (cevents c) 1 (otid o') with Some u => u + free_margin <=? t | None => false end
@@ -181,7 +262,7 @@ Definition free_ok (c : case) : bool :=
                         end) (cobs c)
   end.
 
-Definition spec_ok (c : case) : bool := mutex_ok c && recovers_ok c && cancel_ok c && free_ok c.
+Definition spec_ok (c : case) : bool := mutex_ok c && recovers_ok c && prefile_recovers_ok c && cancel_ok c && free_ok c.
 
 (** ** "distinct names never block each other": cases of kind 1
 
@@ -257,18 +338,19 @@ Fixpoint sys_trace_of (c : config) (p : pid) (s : state) (ls : list label) : lis
       | None => here
       end
   end.
-Definition model_syscalls (c : case) (p : pid) : list Z :=
-  let cfg := cfg_repo_eps (if suspends (cevents c) then no_bound else sim_delta) (cgap c) in
-  let s0 := init_state (cinit c) (-1) in
-  let m := simulate cfg 4000 (chorizon c) (Sim s0 (script_of 0 (cevents c)) [] [] [] []) in
-  sys_trace_of cfg p s0 (rev (trace m)).
+Definition model_syscalls_v (c : case) (p : pid) (v : variant) : list Z :=
+  sys_trace_of (sim_cfg c) p (init_state (cinit c) (-1) (cmtime c)) (rev (trace (sim_run c v))).
+Definition model_syscalls (c : case) (p : pid) : list Z := model_syscalls_v c p (Variant 0 0 []).
 Fixpoint zl_eqb (a b : list Z) : bool :=
   match a, b with
   | [], [] => true
   | x :: a', y :: b' => (x =? y) && zl_eqb a' b'
   | _, _ => false
   end.
-Definition sys_agrees (c : case) (p : pid) (obs : list Z) : bool := zl_eqb (model_syscalls c p) obs.
+(** the number of polls a waiter makes depends on the latencies: some variant must give exactly
+    the observed sequence *)
+Definition sys_agrees (c : case) (p : pid) (obs : list Z) : bool :=
+  exists_lazy (fun v => zl_eqb (model_syscalls_v c p v) obs) (all_variants c).
 
 Fixpoint sys_shape (prev2 prev1 : Z) (l : list Z) : bool :=
   match l with
@@ -312,7 +394,7 @@ Definition explain_line (l : list Z) : list Z :=
       | Some c =>
           flat_map (fun x => [Z.of_nat (fst (fst x)); snd (fst x); snd x / 1000000]) (model_outlog c 0) ++
           [-7; (if mutex_ok c then 1 else 0); (if recovers_ok c then 1 else 0); (if cancel_ok c then 1 else 0);
-           (if free_ok c then 1 else 0)]
+           (if free_ok c then 1 else 0); (if prefile_recovers_ok c then 1 else 0)]
       | None => []
       end
   | 2 :: r =>
